@@ -100,7 +100,9 @@ int main (void)
       case 'j': { /* mutated delivery: jA<idx>:<off>=<val>,<off>=<val>... */
                   size_t i = strtoul (arg, NULL, 10); char *m = strchr (arg, ':');
                   if (i < npkts) { size_t n = pkts[i].n; unsigned char *c = malloc (n ? n : 1); memcpy (c, pkts[i].b, n);
-                    while (m && *m) { m++; unsigned off, val; if (sscanf (m, "%u=%u", &off, &val) == 2 && off < n) c[off] = val; m = strchr (m, ','); }
+                    while (m && *m) { m++; unsigned off, val; if (sscanf (m, "%u=%u", &off, &val) == 2 && off < n) c[off] = val;
+                      else if (sscanf (m, "%u~%u", &off, &val) == 2 && off + 4 <= n) { /* 32-bit big-endian field decreased by val */ guint32 f = ((guint32) c[off] << 24 | c[off + 1] << 16 | c[off + 2] << 8 | c[off + 3]) - val; c[off] = f >> 24; c[off + 1] = f >> 16; c[off + 2] = f >> 8; c[off + 3] = f; }
+                      m = strchr (m, ','); }
                     P ("=%d", (int) pseudo_tcp_socket_notify_packet (S[w], (char *) c, n)); free (c); } else { P ("=x"); w = -1; } break; }
       case 'i': { size_t n; unsigned char *c = hc_unhex_tight (arg, &n); P ("=%d", (int) pseudo_tcp_socket_notify_packet (S[w], (char *) c, n)); break; }
       case 'N': if (npend) { size_t i = take_pending (0); w = 1 - pkts[i].from; P ("%zu=%d", i, deliver (i)); } else { w = -1; P ("=x"); } break;
